@@ -144,6 +144,10 @@ class UnitBuild:
         if c is None:
             return []
         out = []
+        if not for_decl:
+            # pointer-validity preconditions that only make sense when the function is the one under verification
+            for r in c.get('requires_target', []):
+                out.append(('requires', None, '__CPROVER_requires(%s)' % r))
         for r in c.get('requires', []):
             out.append(('requires', None, '__CPROVER_requires(%s)' % r))
         if c.get('assigns') is not None:
@@ -186,7 +190,7 @@ class UnitBuild:
             if mode in ('contract', 'stub'):
                 emit(sig)
                 ct = self.contract_text(cname, True)
-                if not ct and mode == 'contract':
+                if not ct and mode == 'contract' and not cfg.get('draft'):
                     raise Unsupported('callee %s is to be replaced by its contract but the spec has none' % cname)
                 for kind, tag, text in ct:
                     emit(text, {'kind': kind, 'fn': cname, 'tag': tag, 'text': text, 'role': 'callee'})
@@ -212,7 +216,7 @@ class UnitBuild:
         for cname in cfg.get('contracts', {}):
             if cname not in ctx.fn_decls:
                 raise Unsupported('the spec has a contract for %s but no such function was lowered in this unit (have: %s)' % (cname, ', '.join(sorted(ctx.fn_decls))))
-        if self.target_cname not in cfg.get('contracts', {}) and not cfg.get('harness'):
+        if self.target_cname not in cfg.get('contracts', {}) and not cfg.get('harness') and not cfg.get('draft'):
             raise Unsupported('target %s has no contract in the spec' % self.target_cname)
         emit(self.harness())
         return '\n'.join(L) + '\n'
